@@ -142,6 +142,7 @@ class SimDevice:
         self._nonce_source = nonce_source
         self.reply_device_id: Optional[int] = None
         self.silent_on_bad_token = False
+        self.bad_token_delay: Optional[float] = None
         self.on_data: Optional[Callable] = None      # hook(dev, conn, frame) -> action or None
         self.key_lifetime: Optional[float] = None    # seconds after which the device forgets a session key (None: never)
         self.expired_key_packets = 0
@@ -275,6 +276,8 @@ class SimDevice:
         if not token_ok and self.silent_on_bad_token:
             return               # some firmware simply ignores a handshake with an unknown token
         if kind == "error" or not token_ok:
+            if not token_ok and self.bad_token_delay is not None:
+                delay = self.bad_token_delay       # firmware that takes its time to reject an unknown token
             conn.send_stream(rc.v3_error_packet(), delay=delay)
             if opts.get("then"):
                 conn.hang_up(opts["then"])
@@ -363,6 +366,9 @@ class SimDevice:
                     out.append(rc.frame_build(0x04, bytes([0xA1]) + bytes(range(30, 52)), proto=3))
                 elif tkn == "B5N":
                     out.append(rc.frame_build(0x05, bytes([0xB5, 0x01, 0x12, 0x02, 0x01, 0x01]), proto=3))
+                elif tkn == "B1X":
+                    # a checksum-valid property report whose last record announces a value byte that is not there
+                    out.append(rc.frame_build(0x05, bytes.fromhex("b102090000013242000001"), proto=3))
                 else:
                     out.append(tkn)
             return out
